@@ -308,10 +308,11 @@ Definition enc_peer_addr_with (n6 : Z) (a : peer_addr) : list Z :=
     e_array n6 ++ e_uint 1 ++ e_uint (v6_word1 bits) ++ e_uint (v6_word2 bits) ++
     e_uint (v6_word3 bits) ++ e_uint (v6_word4 bits) ++ e_uint port
   end.
-(* the code before the repair (both stacks): e.array(8) followed by six items *)
+(* the code before the repair (both stacks, up to /repo commit cdd45fe8): e.array(8)
+   followed by six items — kept for [peeraddr_v6_malformed_refuted] *)
 Definition enc_peer_addr_pre := enc_peer_addr_with 8.
-(* current code *)
-Definition enc_peer_addr := enc_peer_addr_with 8.
+(* current code: e.array(6) *)
+Definition enc_peer_addr := enc_peer_addr_with 6.
 
 Definition dec_peer_addr (pb : Z) (bs : list Z) : dres (peer_addr * list Z) :=
   '(_, r) <- d_array bs ;; '(l, r) <- d_u16 r ;;
@@ -402,7 +403,7 @@ Section Handshake.
       DOk (bt_of_list Z.compare kvs, r)
     end.
   Definition wf_vtable (t : list (Z * D)) : bool :=
-    keys_sorted (-1) t && forallb (fun kv => in_u u64b (fst kv) && wfD (snd kv)) t.
+    keys_sorted (-1) t && forallb (fun kv => in_u u64b (fst kv) && wfD (snd kv)) t && (len t <? u64b).
 
   Definition hs_enc (m : hs_msg D) : list Z :=
     match m with
